@@ -2284,8 +2284,8 @@ func listStyleType_(tokens []Token) (out pr.CounterStyleID, ok bool) {
 		}
 		arguments := []string{"symbolic"}
 		if arg0, ok := functionArguments[0].(pa.Ident); ok {
-			if arg0.Value == "cyclic" || arg0.Value == "numeric" || arg0.Value == "alphabetic" || arg0.Value == "symbolic" || arg0.Value == "fixed" {
-				arguments = []string{string(arg0.Value)}
+			if system := utils.AsciiLower(arg0.Value); system == "cyclic" || system == "numeric" || system == "alphabetic" || system == "symbolic" || system == "fixed" {
+				arguments = []string{system}
 				functionArguments = functionArguments[1:]
 			} else {
 				return out, false
